@@ -4,11 +4,14 @@
    One scenario per input line; commands separated by " ; ":
      new k=v ...          as in h_sess.c plus  grp=<c groups,..> sgrp=<s groups,..> shares=<n> sig=<c sigalgs hex,..> ec=<256|384|521: client curve, TLS 1.2>
                           ssig=<s sigalgs> pad=<tls13BlockSize> psk=1 (external TLS 1.3 PSK) spsk=<0 server without it|2 server with another> psklen=<n> rotate=1 (server ticket keys replaced before this session)
+                          pskke=1 (the server selects psk_ke: it treats the client's psk_key_exchange_modes {psk_dhe_ke, psk_ke} as {psk_ke})
      hs                   pump until quiescent, logging every record on the wire (global order)
      app <c|s> <len> <b>  application send of <len> bytes (byte i = (b + i) & 255), pump, print what the peer's
                           application received (ok=1 iff identical) - records are logged as well
      quiet <0|1>          1: log only the 5-byte header of further records (large payload tests)
      dump                 print the state of both peers + the event log + the wire log
+     inj <c|s> <hex>      feed records made by an independent peer (the extracted spec) to a side; print what its application got
+     ks13 <suite> <c|s> <psk> ke <th CH..SH> <th ..sFin> <th ..cFin>   direct calls of the TLS 1.3 key schedule stages in the psk_ke state
    Link-time wraps (besides those of sess.h):
      transcript hashes    psSha256Init/Update psSha384Init/Update psMd5Sha1Init/Update   (by context address)
      <= TLS 1.2 PRF       prf prf2                                                        (secret, seed, output, destination)
@@ -106,7 +109,7 @@ psRes_t __wrap_psVerifySig(psPool_t *pool, const unsigned char *d, psSizeL_t dl,
 }
 
 /* ------------------------------------------------------------------ API entry points: who is running */
-static uint16_t g_cgrp[8], g_sgrp[8], g_csig[16], g_ssig[16]; static int g_ncgrp, g_nsgrp, g_ncsig, g_nssig, g_shares = 1, g_pad, g_cec, g_spsk = 1, g_psklen, g_rotate;
+static uint16_t g_cgrp[8], g_sgrp[8], g_csig[16], g_ssig[16]; static int g_ncgrp, g_nsgrp, g_ncsig, g_nssig, g_shares = 1, g_pad, g_cec, g_spsk = 1, g_psklen, g_rotate, g_pskke;
 static int side_of(ssl_t *s) { return s == g_s.ssl ? 1 : 0; }
 /* external TLS 1.3 PSK (sess.h psk=1 loads the same PSK into both key sets): spsk=0 the server gets none, spsk=2 the server
    gets another identity with another key (either way it declines the client's offer -> certificate handshake);
@@ -149,6 +152,20 @@ int32_t __wrap_matrixSslNewServerSession(ssl_t **ssl, const sslKeys_t *keys, ssl
     if (g_pad) o->tls13BlockSize = (psSizeL_t) g_pad;
     int32_t rc = __real_matrixSslNewServerSession(ssl, keys, cb, o);
     g_cur = -1; return rc;
+}
+/* PSK-only key exchange: MatrixSSL clients always offer both modes and the server prefers psk_dhe_ke; a conforming server
+   may just as well choose psk_ke (RFC 8446 4.2.9).  With pskke=1 the server forgets that psk_dhe_ke was offered once the
+   ClientHello extensions are parsed - nothing on the wire is altered, both roles then run the psk_ke schedule for real */
+int32_t __real_tls13ParseExtensions(ssl_t *ssl, psParseBuf_t *pb, unsigned char hsMsgType, psBool_t allowStateChange);
+int32_t __wrap_tls13ParseExtensions(ssl_t *ssl, psParseBuf_t *pb, unsigned char hsMsgType, psBool_t allowStateChange)
+{
+    int32_t rc = __real_tls13ParseExtensions(ssl, pb, hsMsgType, allowStateChange);
+    if (g_pskke && (ssl->flags & SSL_FLAGS_SERVER) && hsMsgType == SSL_HS_CLIENT_HELLO) {
+        int had = 0;
+        for (int i = 0; i < 2; i++) if (ssl->sec.tls13ClientPskModes[i] == psk_keyex_mode_psk_ke) had = 1;
+        if (had) { ssl->sec.tls13ClientPskModes[0] = psk_keyex_mode_psk_ke; ssl->sec.tls13ClientPskModes[1] = psk_keyex_mode_none; ssl->sec.tls13ClientPskModesLen = 1; }
+    }
+    return rc;
 }
 int32_t __real_matrixSslReceivedData(ssl_t *ssl, uint32_t bytes, unsigned char **pt, uint32_t *ptLen);
 int32_t __wrap_matrixSslReceivedData(ssl_t *ssl, uint32_t bytes, unsigned char **pt, uint32_t *ptLen)
@@ -310,7 +327,7 @@ static int parse_u16(const char *s, uint16_t *out, int max, int base) { int n = 
 static void do_new(char **a, int n)
 {
     scfg_t c; memset(&c, 0, sizeof c); c.cca = 1; c.seed = 1;
-    g_ncgrp = g_nsgrp = g_ncsig = g_nssig = 0; g_shares = 1; g_pad = 0; g_cec = 0; g_spsk = 1; g_psklen = 0; g_rotate = 0;
+    g_ncgrp = g_nsgrp = g_ncsig = g_nssig = 0; g_shares = 1; g_pad = 0; g_cec = 0; g_spsk = 1; g_psklen = 0; g_rotate = 0; g_pskke = 0;
     for (int i = 0; i < n; i++) {
         char *eq = strchr(a[i], '='); if (!eq) continue; *eq = 0; char *v = eq + 1;
         if (!strcmp(a[i], "cv")) c.ncver = parse_list(v, c.cver, 4);
@@ -339,6 +356,7 @@ static void do_new(char **a, int n)
         else if (!strcmp(a[i], "spsk")) g_spsk = atoi(v);
         else if (!strcmp(a[i], "psklen")) g_psklen = atoi(v);
         else if (!strcmp(a[i], "rotate")) g_rotate = atoi(v);
+        else if (!strcmp(a[i], "pskke")) g_pskke = atoi(v);
         else if (!strcmp(a[i], "ec")) g_cec = atoi(v) == 256 ? SSL_OPT_SECP256R1 : atoi(v) == 384 ? SSL_OPT_SECP384R1 : atoi(v) == 521 ? SSL_OPT_SECP521R1 : 0;
     }
     g_logging = 0;                 /* deleting the previous pair is not part of the new scenario */
@@ -381,9 +399,70 @@ static void app_roundtrip(peer_t *from, size_t len, int b0)
     free(got); free(d);
 }
 
+/* inj <c|s> <hex>: records made by someone else (the extracted RFC spec acting as the peer) are fed to a side;
+   prints what its application received */
+static void do_inject(peer_t *to, const char *hex)
+{
+    unsigned char *d; size_t l = unhex(hex, &d), off = 0; int32 last = 0; int alerts = 0;
+    unsigned char *got = malloc(l + 16); size_t gl = 0;
+    while (to->ssl && off < l) {
+        unsigned char *rb; int32 room = matrixSslGetReadbuf(to->ssl, &rb); if (room <= 0) { last = -9999; break; }
+        size_t n = l - off; if (n > (size_t) room) n = (size_t) room; memcpy(rb, d + off, n); off += n;
+        unsigned char *pt; uint32 ptlen; int32 r = matrixSslReceivedData(to->ssl, (uint32) n, &pt, &ptlen);
+        for (;;) {
+            if (r == MATRIXSSL_APP_DATA) { if (gl + ptlen <= l) { memcpy(got + gl, pt, ptlen); gl += ptlen; } r = matrixSslProcessedData(to->ssl, &pt, &ptlen); continue; }
+            if (r == MATRIXSSL_RECEIVED_ALERT) { alerts++; r = matrixSslProcessedData(to->ssl, &pt, &ptlen); continue; }
+            break;
+        }
+        last = r; if (r < 0) break;
+    }
+    printf("inj:%c rc=%d alerts=%d err=%d got=", to->is_server ? 's' : 'c', last < 0 ? last : 0, alerts, to->ssl ? (int) to->ssl->err : -1); puthex(got, gl);
+    g_quiet = 1; flush_out(to); g_quiet = 0;
+    free(got); free(d);
+}
+
+/* ks13 <suite hex> <role c|s> <psk hex> <mode ke> <th_sh> <th_sfin> <th_cfin>: the key schedule entry points called directly on an
+   ssl_t in the state after a ServerHello that selected the PSK without key_share (psk_ke): every stage's output */
+static void do_ks13(char **a, int n)
+{
+    if (n < 8) { printf("ks13:args"); return; }
+    uint16_t suite = (uint16_t) strtol(a[1], NULL, 16); int server = a[2][0] == 's';
+    unsigned char *psk, *t1, *t2, *t3; size_t pl = unhex(a[3], &psk), l1 = unhex(a[5], &t1), l2 = unhex(a[6], &t2), l3 = unhex(a[7], &t3);
+    static const unsigned char id[] = "verif-direct-psk";
+    ssl_t *ssl = calloc(1, sizeof(*ssl)); int32_t rc; int lg = g_cur;
+    ssl->cipher = sslGetDefinedCipherSpec(suite);
+    if (!ssl->cipher || ssl->cipher->ident != suite) { printf("ks13:nosuite"); free(ssl); return; }
+    int hl = (ssl->cipher->flags & CRYPTO_FLAGS_SHA3) ? 48 : 32;
+    if (server) ssl->flags |= SSL_FLAGS_SERVER;
+    psTls13SessionParams_t pp; memset(&pp, 0, sizeof pp); pp.cipherId = suite;       /* the PSK is bound to this suite's hash whatever its length */
+    ssl->sec.tls13ChosenPsk = tls13NewPsk(psk, (psSize_t) pl, id, sizeof(id) - 1, PS_FALSE, &pp);
+    ssl->sec.tls13UsingPsk = PS_TRUE; ssl->sec.tls13ChosenPskMode = psk_keyex_mode_psk_ke;
+    memcpy(ssl->sec.tls13TrHashSnapshotCHtoSH, t1, l1 < 48 ? l1 : 48);
+    g_logging = 0;
+    printf("ks13:");
+    rc = tls13DeriveHandshakeTrafficSecrets(ssl); printf(" rc1=%d", rc);
+    kv("hs", ssl->sec.tls13HandshakeSecret, hl); kv("c_hs", ssl->sec.tls13HsTrafficSecretClient, hl); kv("s_hs", ssl->sec.tls13HsTrafficSecretServer, hl);
+    rc = tls13DeriveHandshakeKeys(ssl); printf(" rc2=%d", rc);
+    kv(server ? "c_hs_key" : "s_hs_key", ssl->sec.tls13HsReadKey, ssl->cipher->keySize); kv(server ? "c_hs_iv" : "s_hs_iv", ssl->sec.tls13HsReadIv, ssl->cipher->ivSize);
+    kv(server ? "s_hs_key" : "c_hs_key", ssl->sec.tls13HsWriteKey, ssl->cipher->keySize); kv(server ? "s_hs_iv" : "c_hs_iv", ssl->sec.tls13HsWriteIv, ssl->cipher->ivSize);
+    memcpy(ssl->sec.tls13TrHashSnapshot, t2, l2 < 48 ? l2 : 48);
+    rc = tls13DeriveAppTrafficSecrets(ssl); printf(" rc3=%d", rc);
+    kv("master", ssl->sec.tls13MasterSecret, hl); kv("c_ap", ssl->sec.tls13AppTrafficSecretClient, hl); kv("s_ap", ssl->sec.tls13AppTrafficSecretServer, hl);
+    rc = tls13DeriveAppKeys(ssl); printf(" rc4=%d", rc);
+    kv(server ? "c_ap_key" : "s_ap_key", ssl->sec.tls13AppReadKey, ssl->cipher->keySize); kv(server ? "c_ap_iv" : "s_ap_iv", ssl->sec.tls13AppReadIv, ssl->cipher->ivSize);
+    kv(server ? "s_ap_key" : "c_ap_key", ssl->sec.tls13AppWriteKey, ssl->cipher->keySize); kv(server ? "s_ap_iv" : "c_ap_iv", ssl->sec.tls13AppWriteIv, ssl->cipher->ivSize);
+    memcpy(ssl->sec.tls13TrHashSnapshot, t3, l3 < 48 ? l3 : 48);
+    rc = tls13DeriveResumptionMasterSecret(ssl); printf(" rc5=%d", rc);
+    kv("res", ssl->sec.tls13ResumptionMasterSecret, hl);
+    g_logging = 1; g_cur = lg;
+    tls13FreePsk(ssl->sec.tls13ChosenPsk, NULL); free(ssl); free(psk); free(t1); free(t2); free(t3);
+}
+
 static void run_cmd(char **a, int n)
 {
     if (n == 0) return;
+    if (!strcmp(a[0], "inj") && n >= 3) { do_inject(side(a[1]), a[2]); return; }
+    if (!strcmp(a[0], "ks13")) { do_ks13(a, n); return; }
     if (!strcmp(a[0], "new")) do_new(a + 1, n - 1);
     else if (!strcmp(a[0], "hs")) { int k = pump_logged(); printf("hs:%d c=%d s=%d", k, g_c.ssl ? matrixSslHandshakeIsComplete(g_c.ssl) : -1, g_s.ssl ? matrixSslHandshakeIsComplete(g_s.ssl) : -1); }
     else if (!strcmp(a[0], "app") && n >= 4) app_roundtrip(side(a[1]), (size_t) atol(a[2]), atoi(a[3]));
